@@ -1013,7 +1013,7 @@ func kindOfReparse(s string) string {
 		if j := strings.Index(rest, ":"); j >= 0 {
 			rest = rest[:j]
 		}
-		return s[strings.Index(s, "(") : i+1] + rest
+		return s[strings.Index(s, "("):i+1] + rest
 	}
 	return s
 }
